@@ -449,6 +449,11 @@ def c17_jobs(tier):
     for cls in ("Multistage", "Mixed", "TwoLevel") + REVOLVE_FAMILY:
         jobs.append(_job("domain", "%s/N=%d" % (cls, N), {"cls": cls, "nmax": N}, w=N))
     jobs.append(_job("nadv_invalid", "all", {}))
+    # valid tuples with ANY cost vector (uf, ub > 0, wd, rd >= 0, incl. the zero boundaries): the stream
+    # must complete -- the Revolve-family part of the sweep for small n, symbolic costs
+    jobs += [j for j in sweep_jobs(tier, classes=REVOLVE_FAMILY)
+             if isinstance(j["params"]["n"], int) and j["params"]["n"] <= (8 if q else 12) and "probe" not in j["name"]
+             and "intcache" not in j["name"] and "above" not in j["name"] and "manyram" not in j["name"]]
     return jobs
 
 
@@ -456,7 +461,8 @@ PROPS["C17"] = {
     "fatal": ["C17.", "X.exception", "X.runaway", "C02.premature_stop"], "jobs": c17_jobs,
     "bounds": lambda tier: {"n": [-1, 6 if tier == "quick" else 12], "units": "0.. (symbolic, unbounded above; "
                             "Revolve family: ram 0..3, disk 0..2)", "period": [-1, "N+1"],
-                            "storage": "all four StorageType members", "costs": "defaults (positive)"},
+                            "storage": "all four StorageType members", "costs": "box: defaults; completion of valid Revolve-family "
+                            "tuples additionally for every cost vector (symbolic), n <= 8/12"},
     "outside": ["negative unit counts", "non-integer parameters", "(Revolve family, max_n=1, no RAM unit): the class "
                 "documentation restricts the family to snapshots_in_ram > 0 while the statement's domain admits "
                 "it; either outcome is accepted there, but a failure must precede any action"],
